@@ -6,6 +6,7 @@ from typing import List
 
 from harness.lib.core import VERIF, Ctx, lean_lock, run_driver, shrink_ops
 from harness.extract import agents as x_agents
+from harness.extract import agents_ctl as x_ctl
 from harness.rigs import agents as rig
 
 MANIFEST = {
@@ -41,7 +42,7 @@ MANIFEST = {
     "technique": "Lean 4 theorems over executable agent models; models tied by regenerated tables and a differential rig",
     "design_ref": "5/C19",
 }
-MODULES = ["PrimaiteModel.Props.C19", "PrimaiteModel.Props.C19Sched", "PrimaiteModel.Props.C19Run", "PrimaiteModel.Props.C19Params", "PrimaiteModel.Props.C19Sampler", "PrimaiteModel.Props.C19Nodes", "PrimaiteModel.Props.C19More", "PrimaiteModel.Props.C19Live"]
+MODULES = ["PrimaiteModel.Props.C19", "PrimaiteModel.Props.C19Sched", "PrimaiteModel.Props.C19Run", "PrimaiteModel.Props.C19Params", "PrimaiteModel.Props.C19Sampler", "PrimaiteModel.Props.C19Nodes", "PrimaiteModel.Props.C19More", "PrimaiteModel.Props.C19Live", "PrimaiteModel.Props.C19NoRaise", "PrimaiteModel.Props.C19Ctl"]
 EXE = "drv_c19"
 KINDS = ["periodic", "prob", "probn", "tap1", "tap3", "rand"]
 
@@ -110,6 +111,7 @@ def _gen_obligations(ctx: Ctx):
 def run(ctx: Ctx):
     with lean_lock():
         ctx.extract("Agents", x_agents.emit)
+        ctx.extract("AgentsCtl", x_ctl.emit)
         ctx.prove(MODULES, exes=[EXE], clean=False, leanchecker=ctx.thorough)
     _gen_obligations(ctx)
     ctx.cov["rule"] = ("cases = (agent kind in {periodic, data-manipulation, probabilistic, TAP001, TAP003, random}, settings, prescribed draws, "
